@@ -20,22 +20,22 @@ variable {δ ε : Type}
 
 /-- states reachable from a fresh session (whatever its datamodel shares with its events) -/
 def Reachable (t : Timer δ ε) : Prop :=
-  ∃ (f : δ → ε → ε) (d : δ) (ops : List (Op δ ε)), t = (Timer.initWith f d).run ops
+  ∃ (f : δ → ε → ε) (hr : Nat) (d : δ) (ops : List (Op δ ε)), t = (Timer.initFull f hr d).run ops
 
 theorem Reachable.wf {t : Timer δ ε} (h : Reachable t) : WF t := by
-  obtain ⟨f, d, ops, rfl⟩ := h
-  exact (WF.initWith f d).run ops
+  obtain ⟨f, hr, d, ops, rfl⟩ := h
+  exact (WF.initFull f hr d).run ops
 #assert_axioms Reachable.wf
 
 theorem Reachable.seen {t : Timer δ ε} (h : Reachable t) : Seen t := by
-  obtain ⟨f, d, ops, rfl⟩ := h
-  have h0 : Seen (Timer.initWith f d : Timer δ ε) := by intro x hx; simp [Timer.initWith] at hx
+  obtain ⟨f, hr, d, ops, rfl⟩ := h
+  have h0 : Seen (Timer.initFull f hr d : Timer δ ε) := by intro x hx; simp [Timer.initFull] at hx
   exact h0.run ops
 #assert_axioms Reachable.seen
 
 theorem Reachable.run {t : Timer δ ε} (h : Reachable t) (ops : List (Op δ ε)) : Reachable (t.run ops) := by
-  obtain ⟨f, d, ops0, rfl⟩ := h
-  refine ⟨f, d, ops0 ++ ops, ?_⟩
+  obtain ⟨f, hr, d, ops0, rfl⟩ := h
+  refine ⟨f, hr, d, ops0 ++ ops, ?_⟩
   have : ∀ (u : Timer δ ε) (a b : List (Op δ ε)), (u.run a).run b = u.run (a ++ b) := by
     intro u a b
     induction a generalizing u with
@@ -46,10 +46,11 @@ theorem Reachable.run {t : Timer δ ε} (h : Reachable t) (ops : List (Op δ ε)
 
 /-! ## The clauses of the property -/
 
-/-- the `<send>` is carried out: the session is running, the delay is not negative, and a delayed
-send does not target `#_internal` (otherwise `SendParameters::execute` aborts with error.execution) -/
+/-- the `<send>` is carried out: the session is running, the delay is not negative, a delayed
+send does not target `#_internal` (otherwise `SendParameters::execute` aborts with error.execution),
+and `now + delay` is a date `chrono` can represent (otherwise the session thread panics) -/
 def Accepted (t : Timer δ ε) (tg : Str) (delay : Int) : Prop :=
-  t.alive = true ∧ 0 ≤ delay ∧ ¬ (0 < delay ∧ tg = internalTarget)
+  t.alive = true ∧ 0 ≤ delay ∧ ¬ (0 < delay ∧ tg = internalTarget) ∧ delay.toNat ≤ t.headroom
 
 /-- the value a `<send>` builds shares no container with the datamodel: reading it later through the
 sender's data gives the same value (true of numbers, strings, booleans; NOT of an array or map taken
@@ -169,10 +170,12 @@ theorem C16_value_not_early : ClauseValueNotEarly (fun _ _ t mk => NoSharing t m
     · exact ⟨rfl, rfl, rfl⟩
     split
     · exact ⟨rfl, rfl, rfl⟩
-    rename_i h1 h2 h3
+    split
+    · exact ⟨rfl, rfl, rfl⟩
+    rename_i h1 h2 h3 h4
     exfalso
     apply hna
-    refine ⟨by simpa using h1, by omega, h3⟩
+    refine ⟨by simpa using h1, by omega, h3, by omega⟩
   refine ⟨?_, hB⟩
   intro hacc hshare ops d hd hseq
   -- what the receiver reads: the captured event through the (constant) deref at some later data
@@ -187,7 +190,7 @@ theorem C16_value_not_early : ClauseValueNotEarly (fun _ _ t mk => NoSharing t m
       rw [this]; exact run_deref _ _
     rw [hdat, hde, hev]
     exact hshare dat
-  obtain ⟨halive, hnn, hni⟩ := hacc
+  obtain ⟨halive, hnn, hni, hhead⟩ := hacc
   have hw := hr.wf
   -- the state right after the send
   have hfr := Frame.run (t.send id tg delay mk) ops
@@ -198,7 +201,7 @@ theorem C16_value_not_early : ClauseValueNotEarly (fun _ _ t mk => NoSharing t m
       (d.entry ∈ (t.send id tg delay mk).pending ∧ d.viaTimer = true) ∨
       (t.send id tg delay mk).nextSeq ≤ d.entry.seq) := hfr.log d hd
   unfold Timer.send at key
-  rw [if_neg (by simp [halive]), if_neg (by omega), if_neg hni] at key
+  rw [if_neg (by simp [halive]), if_neg (by omega), if_neg hni, if_neg (by omega)] at key
   simp only at key
   split at key
   · -- delay = 0
@@ -426,7 +429,7 @@ theorem C16_counterexample : ¬ C16_full := by
   have hex := h.2.2.2.1
   -- the state after the first send; the second send, the tick are the schedule
   let t1 : Timer Nat Nat := (Timer.init 0).send (some [88]) [] 100 (fun _ => 1)
-  have hr : Reachable t1 := ⟨fun _ e => e, 0, [.send (some [88]) [] 100 (fun _ => 1)], rfl⟩
+  have hr : Reachable t1 := ⟨fun _ e => e, chronoHeadroom, 0, [.send (some [88]) [] 100 (fun _ => 1)], rfl⟩
   let e1 : Entry Nat := ⟨100, 0, some [88], [], 1⟩
   have he : e1 ∈ t1.pending := by decide
   have := hex Nat Nat t1 hr e1 he [.send (some [88]) [] 200 (fun _ => 2), .tick 300]
@@ -445,7 +448,7 @@ def stopLatencyScript : List (Op Nat Nat) := [.tick 50, .terminate, .tick 100, .
 theorem C16_counterexample_stop_latency : ¬ ClauseTerminate := by
   intro h
   let t1 : Timer Nat Nat := ((Timer.init 0).send none [] 100 (fun _ => 1)).tick 50
-  have hr : Reachable t1 := ⟨fun _ e => e, 0, [.send none [] 100 (fun _ => 1), .tick 50], rfl⟩
+  have hr : Reachable t1 := ⟨fun _ e => e, chronoHeadroom, 0, [.send none [] 100 (fun _ => 1), .tick 50], rfl⟩
   have := h Nat Nat t1 hr [.tick 100, .wake, .stop]
   have hl := congrArg List.length this
   revert hl
@@ -462,11 +465,11 @@ def sharedScript : List (Op Nat (Bool × Nat)) := [.assign (fun _ => 99), .tick 
 theorem C16_counterexample_shared_container : ¬ ClauseValueNotEarly (fun _ _ _ _ => True) := by
   intro h
   let t0 : Timer Nat (Bool × Nat) := Timer.initWith sharedDeref 1
-  have hr : Reachable t0 := ⟨sharedDeref, 1, [], rfl⟩
+  have hr : Reachable t0 := ⟨sharedDeref, chronoHeadroom, 1, [], rfl⟩
   have hlog : ((t0.send none [] 200 (fun x => (true, x))).run sharedScript).log =
       [⟨200, true, ⟨200, 0, none, [], (true, 1)⟩, (true, 99)⟩] := by decide
   have := (h Nat (Bool × Nat) t0 hr none [] 200 (fun x => (true, x))).1
-    ⟨rfl, by decide, by decide⟩ trivial sharedScript
+    ⟨rfl, by decide, by decide, by decide⟩ trivial sharedScript
     ⟨200, true, ⟨200, 0, none, [], (true, 1)⟩, (true, 99)⟩ (by rw [hlog]; exact List.mem_cons_self ..) rfl
   have hs := this.1
   revert hs
@@ -513,6 +516,11 @@ example : idsFresh (Timer.init 0 : Timer Nat Nat)
 example : NoSharing (Timer.init 5 : Timer Nat Nat) (fun x => x) := fun _ => rfl
 example : ¬ NoSharing (Timer.initWith sharedDeref 1) (fun x => (true, x)) := by
   intro h; have := h 2; revert this; decide
+-- a delay beyond chrono's date range: the session thread panics, nothing is scheduled, nothing more happens
+example : ((Timer.init 0 : Timer Nat Nat).run
+    [.send none [] 100 (fun _ => 1), .send none [] 9223372036854775807 (fun _ => 2), .send none [] 0 (fun _ => 3),
+     .stop, .tick 200, .wake]).log.length = 0 := by decide
+example : ((Timer.init 0 : Timer Nat Nat).send none [] 9223372036854775807 (fun _ => 2)).crashed = true := by decide
 -- durations ("6.7s", ".5s", "1Sx", "x1S", "5", "1.5.5s")
 example : parseDuration [54, 46, 55, 115] = 6700 := by decide
 example : parseDuration [46, 53, 115] = 500 := by decide
